@@ -514,7 +514,17 @@ impl TypeChecker {
                             type_scheme: TypeScheme::concrete(Type::Dimension(time)),
                         }
                     } else if (*op == BinaryOperator::Add || *op == BinaryOperator::Sub)
-                        && rhs_is_time
+                        && (rhs_is_time
+                            // The type of the right hand side may not be known yet (`t + 0 s`: the
+                            // literal `0` is polymorphic). Require it to be a time in that case.
+                            || (!rhs_type.is_closed()
+                                && (rhs_type.is_dtype() || matches!(rhs_type, Type::TVar(_)))
+                                && !self
+                                    .add_equal_constraint(
+                                        &rhs_type,
+                                        &Type::Dimension(DType::base_dimension("Time")),
+                                    )
+                                    .is_trivially_violated()))
                     {
                         typed_ast::Expression::BinaryOperatorForDate {
                             op_span: *span_op,
